@@ -16,6 +16,12 @@ configurations (constants overridden per tier below):
                 attached value in every order; replayed twice: payload int and a move-tracking payload
   SP_grow.cfg   two objects, many handles, operations biased to the capacity boundaries
                 3 -> heap(6) -> 12 -> 24 -> 48 (AddTo = fill up to a boundary, AddHandle = the add() that allocates)
+  SP_unwind.cfg the control-flow CONTEXT of the resuming operations (Ctxs): clear(), destruction (explicit, discarded
+                return value, automatic object), the scope exit that ends a history and the function given to
+                create_suspend_point executed in ordinary flow / by the stack unwinding of a scope left by an exception /
+                by a scope guard's destructor during unwinding / inside a handler; typed and untyped objects of 0..4(5)
+                handles, own handle included, both modes, histories bounded by MaxSteps (all other configurations
+                run with Ctxs = {"flow"})
   SP_deep.cfg   two objects, up to 52 handles: the 24 -> 48 and 48 -> 96 doublings (thorough)
   SP_sim.cfg    tlc -simulate: random behaviours of up to 60 operations, 3 objects, 40 handles (no replay)
 plus TLC-only runs of SP_all.cfg with typed objects / one more handle.
@@ -31,6 +37,9 @@ ALL_OPS = ["ConstructEmpty", "ConstructH", "MoveConstruct", "AddHandle", "AddFil
 SELF_OPS = ["ConstructSelf", "AddSelf", "Yield"]
 HELPERS = ["ParResume", "CreateSP"]     # resume.h parallel_resume, coro_queue::create_suspend_point
 KEY_SELF_LAST = "await_own_handle_last"     # known_findings.jsonl: fixed in /repo 283e427
+CTXS = ["flow", "unwind", "dtor", "catch"]
+UNWIND_OPS = ["ConstructEmpty", "ConstructH", "AddHandle", "AddTo", "AddSelf", "MergeShl", "Pop", "Clear", "Destroy",
+              "CoAwait", "Yield", "CreateSP", "Finish"]
 
 
 def proj(st):
@@ -261,10 +270,31 @@ def run(ctx):
         jobs.append(("SP_all.cfg", "all3", {"MaxObj": 3, "MaxH": 4}, full, 1000, "int"))
         jobs.append(("SP_grow.cfg", "growself", {"MaxSteps": 6, "Ops": grow_self_ops}, grow + SELF_OPS, 1000, "int"))
         jobs.append(("SP_deep.cfg", "deep", None, grow + ["AddSelf"], 1000, "int"))
+    jobs.append(("SP_unwind.cfg", "unwind", {"MaxSteps": 4} if q else {"MaxSteps": 5, "MaxH": 5}, UNWIND_OPS, 50 if q else 500, "tracked"))
     for (cfg, tag, consts, must, rnd, payload) in jobs:
-        replay(ctx, "SuspendPoint", "SuspendPoint", cfg, tag, rp, proj if payload == "tracked" else proj_int,
-               header_fn=hdr_for(payload), must_take=must, constants=consts, extra_random=rnd,
-               tlc_kw={"workers": 4}, key_fn=key_fn)
+        res, g = replay(ctx, "SuspendPoint", "SuspendPoint", cfg, tag, rp, proj if payload == "tracked" else proj_int,
+                        header_fn=hdr_for(payload), must_take=must, constants=consts, extra_random=rnd,
+                        tlc_kw={"workers": 4}, key_fn=key_fn)
+        if tag == "unwind" and g is not None:
+            # vacuity guard: every resuming operation was generated (and replayed) in every context it can run in,
+            # with something to resume, in both modes
+            seen = set()
+            for n, es in g.edges.items():
+                for (label, dst) in es:
+                    name, args = vlib.parse_label(label)
+                    if name in ("Clear", "Destroy", "Finish", "CreateSP"):
+                        st = g.state(n)
+                        objs = proj(st)["sp"]
+                        which = {"Clear": 0, "Destroy": 0, "CreateSP": 1}.get(name)
+                        held = [objs[int(args[which]) - 1]] if which is not None and int(args[which]) else []
+                        if any(o["h"] for o in (objs if name == "Finish" else held)):
+                            seen.add((name, args[-1].strip('"'), st["mode"]))
+            want = set((name, c, m) for name in ("Clear", "Destroy", "Finish", "CreateSP") for c in CTXS
+                       for m in ("normal", "coro") if not (name == "Clear" and c == "unwind"))
+            if want - seen:
+                raise vlib.MachineryError("SP_unwind.cfg: operation/context/mode never generated with handles to resume: %s"
+                                          % sorted(want - seen))
+            ctx.extra["contexts_replayed"] = len(seen)
     sd = vlib.VERIF + "/spec/SuspendPoint/"
     # self-test of the specification: the behaviour before /repo 283e427 (Fixed = FALSE: the awaiting
     # coroutine is queued although pop() picked its own handle for the symmetric transfer) must be rejected
@@ -304,5 +334,8 @@ def run(ctx):
                "point (or none) and then returns or throws; it does not consume the ready queue")
     ctx.assume("payload types int and a move-tracking class (identity, moved-from flag); the attached value is observed "
                "through a probe of the member, reads only happen as operations of the history")
+    ctx.assume("control-flow contexts of clear()/destruction/scope exit: ordinary flow, automatic object of a scope left by an "
+               "exception, a scope guard's destructor during unwinding, inside a handler (one exception in flight, thrown and "
+               "caught by the caller on the same thread; no nested exceptions); explored on objects of <= 5 handles")
     ctx.assume("capacity doublings beyond 48->96 and more than 3 simultaneously live objects are not explored; "
                "histories with typed objects are bounded by MaxSteps operations (untyped: unbounded length over <= MaxH handles)")
